@@ -135,8 +135,12 @@ def observe_assembly(vector, modules, **kw):
 
 def run_assembly(case):
     """case: {"vector": elem, "modules": [elem...]} -> observation (+ typing of each element)"""
-    vector = mk_entity(case["vector"], "vector")
-    modules = [mk_entity(m, "mod%d" % i) for i, m in enumerate(case["modules"])]
+    try:
+        vector = mk_entity(case["vector"], "vector")
+        modules = [mk_entity(m, "mod%d" % i) for i, m in enumerate(case["modules"])]
+    except Exception as e:  # noqa
+        # the class refuses to wrap the record at all
+        return {"out": exc_class(e), "exc": type(e).__name__, "msg": "constructing the entities: " + str(e)[:160]}
     obs, _ = observe_assembly(vector, modules)
     if case.get("typed", True):
         # typing is asked of fresh entities so that it cannot disturb the assembly above
